@@ -96,7 +96,7 @@ pub(super) fn get_orig_alias_into(rule_seqs: &[ASCAConfig], dir: &Path,  conf: &
     } else if let Some(al_path) = &conf.alias {
         let mut path = dir.to_path_buf();
         path.push(al_path.as_ref());
-        path.set_extension(ALIAS_FILE_EXT);
+        util::set_default_extension(&mut path, ALIAS_FILE_EXT);
         let (into, _) = parse::parse_alias(&util::validate(&path, &[ALIAS_FILE_EXT, "txt"])?)?;
         Ok(into)           
     } else {
@@ -117,7 +117,7 @@ pub(super) fn get_orig_words(rule_seqs: &[ASCAConfig], dir: &Path,  conf: &ASCAC
         for w_str in &conf.words {
             let mut w_path = dir.to_path_buf();
             w_path.push(w_str.as_ref());
-            w_path.set_extension(WORD_FILE_EXT);
+            util::set_default_extension(&mut w_path, WORD_FILE_EXT);
             let (mut w_file, _) = parse_wsca(&util::validate_or_get_path(Some(&w_path), &[WORD_FILE_EXT, "txt"], "word")?)?;
             if !words.is_empty() {
                 words.push("".to_string());
@@ -157,7 +157,7 @@ pub(super) fn get_words(rule_seqs: &[ASCAConfig], dir: &Path, words_path: &Optio
         for ws in &conf.words {
             let mut wp = dir.to_path_buf();
             wp.push(ws.as_ref());
-            wp.set_extension(WORD_FILE_EXT);
+            util::set_default_extension(&mut wp, WORD_FILE_EXT);
             let (mut w_file, _) = parse_wsca(&util::validate_or_get_path(Some(&wp), &[WORD_FILE_EXT, "txt"], "word")?)?;
             if !words.is_empty() {
                 words.push("".to_string());
@@ -263,7 +263,7 @@ pub fn run_sequence(config: &[ASCAConfig], dir: &Path, words_path: &Option<PathB
     let (into , from) = if let Some(alias) = &seq.alias {
         let mut a_path = dir.to_path_buf();
         a_path.push(alias.as_ref());
-        a_path.set_extension(ALIAS_FILE_EXT);
+        util::set_default_extension(&mut a_path, ALIAS_FILE_EXT);
         parse::parse_alias(&util::validate(&a_path, &[ALIAS_FILE_EXT, "txt"])?)?
     } else {
         (Vec::new(), Vec::new())
